@@ -17,6 +17,7 @@ Decided (DESIGN.md C27, E.3), all on type-checked HIR / call facts of kanidmd_li
  K4-handler-select  CredHandler::Password is built only in build_from_password_only, there exactly for CredentialType::Password /
                     GeneratedPassword; CredHandler::Anonymous only under account.is_anonymous().
  K3-validity        AuthSession::new / new_reauth build a non-denied session state only under is_within_valid_time().
+ K1-denied-producers  AuthState::Denied is constructed only by the session state functions (and reauth_init before a session exists).
 Not decided: correctness of the verifiers themselves (Password::verify, TOTP, webauthn), the badlist test at login.
 """
 import re
